@@ -9,6 +9,7 @@ import (
 	"os"
 	"path/filepath"
 	"regexp"
+	"regexp/syntax"
 	"sort"
 	"strings"
 
@@ -1987,6 +1988,147 @@ func c09r24(c *Ctx, r *Report) {
 	r.floor("calls of History.previous / next / override in Terminal.Loop", n, 4)
 }
 
+// c09r25: forward-word / kill-word look for the end of the next word with the pattern Terminal.wordNext, whose
+// last alternative takes "the last character, whatever it is" so that trailing non-word characters can be
+// passed. A query can contain a newline (--query, change-query, replace-query on a --read0 item), and `.` does
+// not match one unless the s flag is set (D90: `(.$)`: with only newlines left after the cursor forward-word did
+// not move and kill-word killed nothing, while any other trailing character was passed).
+func c09r25(c *Ctx, r *Report) {
+	l := c.L
+	r.rule("C09-R25", "D (word patterns treat a newline like any other character)", "P1",
+		"no pattern stored into Terminal.wordNext or Terminal.wordRubout in NewTerminal contains an any-character-but-newline operator (`.` without the s flag)",
+		"the cursor gets stuck in front of a newline in the query: forward-word and kill-word do nothing there")
+	fn := l.Fn("fzf", "NewTerminal")
+	fN := l.Field("fzf", "Terminal", "wordNext")
+	fR := l.Field("fzf", "Terminal", "wordRubout")
+	if fn == nil || fN == nil || fR == nil {
+		r.unest("anchors", token.NoPos, nil, "anchors NewTerminal / Terminal.wordNext / wordRubout", "cannot resolve")
+		return
+	}
+	var hasDot func(re *syntax.Regexp) bool
+	hasDot = func(re *syntax.Regexp) bool {
+		if re.Op == syntax.OpAnyCharNotNL {
+			return true
+		}
+		for _, sub := range re.Sub {
+			if hasDot(sub) {
+				return true
+			}
+		}
+		return false
+	}
+	n := 0
+	eachInstr(fn, func(in ssa.Instruction) {
+		st, ok := in.(*ssa.Store)
+		if !ok {
+			return
+		}
+		f, _ := fieldOf(st.Addr)
+		if f != fN && f != fR {
+			return
+		}
+		seen := map[string]bool{}
+		var pats []string
+		for v := range backwardSlice(st.Val, func(*ssa.CallCommon) bool { return true }, nil) {
+			str, ok := constString(v)
+			if !ok || len(str) < 3 || seen[str] {
+				continue
+			}
+			seen[str] = true
+			pats = append(pats, str)
+		}
+		sort.Strings(pats)
+		k := 0
+		for _, str := range pats {
+			// a Sprintf format: the separator class takes the place of the verbs
+			pat := strings.ReplaceAll(str, "%s", "x")
+			re, err := syntax.Parse(pat, syntax.Perl)
+			if err != nil {
+				continue // not a pattern (e.g. the word separators themselves)
+			}
+			n++
+			k++
+			r.check(!hasDot(re), fmt.Sprintf("%s:pattern #%d for Terminal.%s", relName(fn), k, f.Name()), st.Pos(), fn,
+				"no newline-excluding `.` in "+str, "the pattern "+str+" uses `.` without the s flag: a newline in the query is not matched")
+		}
+	})
+	r.floor("word patterns stored by NewTerminal", n, 4)
+}
+
+// requestsEvent: the instruction is a call of the local closure `req` (Terminal.Loop) one of whose variadic
+// arguments is the constant ev.
+func requestsEvent(in ssa.Instruction, ev int64) bool {
+	call, ok := in.(*ssa.Call)
+	if !ok || call.Common().IsInvoke() || call.Common().StaticCallee() != nil || len(call.Call.Args) != 1 {
+		return false
+	}
+	u, ok := call.Call.Value.(*ssa.UnOp)
+	if !ok || u.Op != token.MUL {
+		return false
+	}
+	if nm, ok := u.X.(interface{ Name() string }); !ok || nm.Name() != "req" {
+		return false
+	}
+	sl, ok := call.Call.Args[0].(*ssa.Slice)
+	if !ok {
+		return false
+	}
+	found := false
+	for _, in2 := range call.Block().Instrs {
+		st, ok := in2.(*ssa.Store)
+		if !ok {
+			continue
+		}
+		if ia, ok := st.Addr.(*ssa.IndexAddr); ok && ia.X == sl.X && isConstInt(st.Val, ev) {
+			found = true
+		}
+	}
+	return found
+}
+
+// c15r24: the header lines shown inside the list window are indented by the width of pointer + marker
+// (printHeaderImpl). An action that changes that width therefore asks for the header to be redrawn, not only
+// the list (D91: change-pointer / transform-pointer requested reqList only: after `change-pointer(>)` from `>>`
+// the header lines kept three blanks of indentation while the items and a fresh start use two).
+func c15r24(c *Ctx, r *Report) {
+	l := c.L
+	r.rule("C15-R24", "A (a new pointer width redraws the header)", "P1",
+		"in Terminal.Loop and its closures, every path from a store into Terminal.pointerLen to a return passes a req(...) call that includes reqHeader (or reqFullRedraw)",
+		"the header rows keep the indentation of the previous pointer: they are not what a redraw in the current state would show")
+	loop := l.Fn("fzf", "(*Terminal).Loop")
+	fP := l.Field("fzf", "Terminal", "pointerLen")
+	kH := l.Const("fzf", "reqHeader")
+	kF := l.Const("fzf", "reqFullRedraw")
+	if loop == nil || fP == nil || kH == nil || kF == nil {
+		r.unest("anchors", token.NoPos, nil, "anchors Terminal.Loop / pointerLen / reqHeader / reqFullRedraw", "cannot resolve")
+		return
+	}
+	vh, _ := constantInt64(kH)
+	vf, _ := constantInt64(kF)
+	isReq := func(in ssa.Instruction) bool { return requestsEvent(in, vh) || requestsEvent(in, vf) }
+	n, reqs := 0, 0
+	for _, fn := range withClosures(loop) {
+		eachInstr(fn, func(in ssa.Instruction) {
+			if isReq(in) {
+				reqs++
+			}
+			st, ok := in.(*ssa.Store)
+			if !ok {
+				return
+			}
+			if f, _ := fieldOf(st.Addr); f != fP {
+				return
+			}
+			n++
+			hit := pathAvoiding(st, isReturn, isReq, nil)
+			r.check(hit == nil, fmt.Sprintf("%s:change #%d of the pointer width redraws the header", relName(rootFn(fn)), n), st.Pos(), fn,
+				"req(..., reqHeader) follows", "the pointer width changes and the handler returns without requesting the header to be redrawn")
+		})
+	}
+	r.floor("stores into Terminal.pointerLen in Terminal.Loop", n, 1)
+	r.floor("req(...) calls that include reqHeader or reqFullRedraw (control: the call shape resolves)", reqs, 10)
+}
+
 func round10(c *Ctx, r *Report, prop string) {
 	switch prop {
 	case "C01":
@@ -2006,6 +2148,7 @@ func round10(c *Ctx, r *Report, prop string) {
 		c09r22(c, r)
 		c09r23(c, r)
 		c09r24(c, r)
+		c09r25(c, r)
 	case "C10":
 		c10r13(c, r)
 		c10r14(c, r)
@@ -2026,6 +2169,7 @@ func round10(c *Ctx, r *Report, prop string) {
 		c15r21(c, r)
 		c15r22(c, r)
 		c15r23(c, r)
+		c15r24(c, r)
 	case "C17":
 		c17r28(c, r)
 		c17r29(c, r)
